@@ -74,10 +74,10 @@ def expected(rec, pl):
     t = pl.t
     RP = pl.tensor(P0)
     Rm = pl.rot(m1)
-    # second moments about the origin of the placed solid, then about its centroid (coxeter's inertia tensor is centroidal)
+    # second moments of the placed solid about the origin (Polyhedron.inertia_tensor is taken in the global frame)
     c = pl.point(c0)
     V = s ** 3 * V0
-    P = [[s ** 3 * (s * s * RP[i][j] + s * (Rm[i] * t[j] + t[i] * Rm[j]) + V0 * t[i] * t[j]) - V * c[i] * c[j] for j in range(3)]
+    P = [[s ** 3 * (s * s * RP[i][j] + s * (Rm[i] * t[j] + t[i] * Rm[j]) + V0 * t[i] * t[j]) for j in range(3)]
          for i in range(3)]
     tr = P[0][0] + P[1][1] + P[2][2]
     inertia = [[(tr if i == j else 0) - P[i][j] for j in range(3)] for i in range(3)]
@@ -142,7 +142,7 @@ def eval_case(case):
             return True
         return False
 
-    # the inertia tensor is compared on the scale V * diameter^2
+    # the inertia tensor (about the origin) is compared on the scale V * (diameter + offset)^2
     def cap_areas(X):
         a = X.get_face_area(list(range(ncap)))
         return [float(np.sum(a[:ncap // 2])), float(np.sum(a[ncap // 2:]))]
@@ -152,7 +152,7 @@ def eval_case(case):
         ("surface_area", "area", ex["area"], lambda X: X.surface_area, ex["area"]),
         ("get_face_area(caps)", "area", [ex["cap_area"]] * 2, cap_areas, float(ex["cap_area"])),
         ("centroid", "point", ex["centroid"], lambda X: X.centroid, mlen),
-        ("inertia_tensor", "inertia", ex["inertia"], lambda X: X.inertia_tensor, float(ex["volume"]) * diam ** 2),
+        ("inertia_tensor", "inertia", ex["inertia"], lambda X: X.inertia_tensor, float(ex["volume"]) * mlen ** 2),
     ]
     for obs, kind, e, getter, mag in checks:
         try:
